@@ -86,6 +86,7 @@ static SubResult DoLoad(Scenario& sc, const std::string& bytes, sim::InFaults fa
 		{
 			Zoo target;
 			target.skipIntKeyMaps = sc.zooValue.skipIntKeyMaps;
+			target.csvRoot = sc.zooValue.csvRoot;
 			t_failAllocNext = failAlloc;
 			res.r.Set(LoadZooWith(*sc.ops, target, bytes, sc.o, c, faults, throwMode, &info));
 			res.allocs = t_lastCallAllocs;
@@ -155,7 +156,7 @@ Outcome RunC20(RunCtx& ctx)
 		zg.archive = sc.archive;
 		zg.maxLen = 4;
 		GenZoo(s, sim::L_DOC, sc.zooValue, zg);
-		if (sc.archive == A_CSV && sc.zooValue.rows.empty()) sc.zooValue.rows.emplace_back();
+		if (sc.archive == A_CSV) EnsureCsvRow(sc.zooValue);
 	}
 	else
 	{
